@@ -401,21 +401,25 @@ Ltac label_cases l :=
   try match goal with a : sact |- _ => destruct a end;
   try match goal with o : outcome |- _ => destruct o end.
 
-Ltac open_step Hs := unfold step in Hs; cbn in Hs.
+Ltac open_step Hs :=
+  unfold step in Hs;
+  let A := fresh "A" in let EA := fresh "EA" in
+  remember nat_arith as A eqn:EA in Hs;
+  vm_compute in Hs; subst A; cbn [altb aeqb apred nat_arith] in Hs.
 
 (* common start of a preservation lemma: s is destructed, the step equation solved for s' *)
 Ltac pres_start s l Hs :=
   dstate s; label_cases l; open_step Hs; guards Hs; injection Hs as <-; gfacts.
 
 
-(* the labels in six parts (one proof file per group and part) *)
+(* the labels in seven parts (one proof file per group and part) *)
 Definition part (l : label) : nat :=
   match thread_of l, exec_label l with
   | THome, true => 1
   | TFinal, _ => 1
   | THome, false => 2
   | THandle, _ => 3
-  | TWaker, _ => match l with WSched (ARetry | AEarly | ALoad) => 5 | WSched _ => 6 | _ => 4 end
+  | TWaker, _ => match l with WSched (ARetry | AEarly | ALoad) => 5 | WSched APush => 6 | WSched _ => 7 | _ => 4 end
   end.
 
 Ltac pres_start_part s l Hs Hp :=
